@@ -344,8 +344,46 @@ def build_coq(pid, log, jobs=16):
     return res
 
 
+def vo_tree_hash():
+    """hash of every compiled file of the development: the key under which a coqchk result is remembered"""
+    h = hashlib.sha256()
+    for f in sorted(glob.glob(os.path.join(COQ, "**", "*.vo"), recursive=True)):
+        h.update(os.path.relpath(f, COQ).encode())
+        h.update(hashlib.sha256(open(f, "rb").read()).digest())
+    return h.hexdigest()
+
+
+def parse_coqchk(rc, out, dt):
+    m = re.search(r"\* Axioms:(.*?)\n\s*\n\* Constants/Inductives relying on type-in-type:(.*?)\n\s*\n\* Constants/Inductives relying on unsafe \(co\)fixpoints:(.*?)\n\s*\n\* Inductives whose positivity is assumed:(.*?)\n", out + "\n", re.S)
+    if rc != 0 or not m:
+        return dict(ok=False, seconds=round(dt), summary=out[-600:])
+    parts = [" ".join(x.split()) for x in m.groups()]
+    ok = all(x == "<none>" for x in parts)
+    return dict(ok=ok, seconds=round(dt), axioms=parts[0], type_in_type=parts[1], unsafe_fixpoints=parts[2], assumed_positivity=parts[3])
+
+
+COQCHK_CACHE = os.path.join(WORK, "coqchk_cache.json")
+
+
+def cached_coqchk(pid):
+    """the remembered result of lib/coqchk_all.py (one coqchk over all property files) if the compiled tree is still the one it checked"""
+    try:
+        c = json.load(open(COQCHK_CACHE))
+    except Exception:
+        return None
+    if pid in c.get("properties", []) and c.get("tree") == vo_tree_hash():
+        r = dict(c["result"])
+        r["cached_from"] = "one coqchk run over " + " ".join(c["properties"]) + " at " + c.get("when", "?")
+        return r
+    return None
+
+
 def run_coqchk(pid, log):
     """independent re-check of the compiled property file and everything it depends on (thorough tier)"""
+    r = cached_coqchk(pid)
+    if r is not None:
+        log.append("== coqchk: remembered result for the unchanged compiled tree\n" + json.dumps(r))
+        return r
     rc, out, dt = sh(["coqchk", "-silent", "-o", "-Q", ".", "Verif", f"Verif.Properties.{pid}"], cwd=COQ, timeout=3600)
     log.append(f"== coqchk Properties/{pid} ({dt:.0f}s)\n" + out[-3000:])
     m = re.search(r"\* Axioms:(.*?)\n\s*\n\* Constants/Inductives relying on type-in-type:(.*?)\n\s*\n\* Constants/Inductives relying on unsafe \(co\)fixpoints:(.*?)\n\s*\n\* Inductives whose positivity is assumed:(.*?)\n", out + "\n", re.S)
@@ -450,6 +488,8 @@ def main():
             chk = run_coqchk(pid, log)
             if not chk["ok"]:
                 broken.append("coqchk: " + json.dumps(chk)[:600])
+        elif coq["ok"]:
+            chk = cached_coqchk(pid)   # quick tier: only reported when the compiled tree is the one coqchk saw
     if True:
         # 3. harness
         drv_res = None
